@@ -187,6 +187,40 @@ ROUND6 = {
 for _k, _v in ROUND6.items():
     CLAIMED[_k]["text"] += " " + _v
 
+# what the seventh seeding round added
+ROUND7 = {
+ "C01": "Round 7: type values (what make(type T, v) yields) in the operand pool, read-only reflect.Values answered by lookup objects, struct types with directional channel fields.",
+ "C02": "Round 7: what the return of ExecuteContext may wait on after a cancel (go-started Go functions that panic).",
+ "C03": "Round 7: phase reeval (a literal still denotes what is written when its node is evaluated again after the program took its address and stored through it: 13 carriers x 18 ways of taking hold x 13 re-evaluating vehicles, tree re-dumped after every run), float literals of 801-3000 characters against a big.Int reference incl. long negative zeros.",
+ "C04": "Round 7: function literals started with go / defer inside blocks, function bodies and for-in bodies capture their scope by reference.",
+ "C05": "Round 7: phase spelling (691 spellings of 44 values under every operator, position and compound form must agree with a variable of the same value).",
+ "C06": "Round 7: phases ptr (pointers made 15 ways against 40 partners: the laws, and independence of where the pointer is read from) and uns (host integers of every width at their bounds incl. 2^63 and 2^64-1 against 132 partners).",
+ "C07": "Round 7: parenthesised containers of nested assignment targets whose store has to put a new container back.",
+ "C08": "Round 7: loops whose break/continue sit in switch cases, if blocks and inner loops after loops of the same invocation that failed inside try blocks; for-in over nil or a boolean as a model variant; switch subjects that are pointers to pointers; valued return through every loop form without a context.",
+ "C09": "Round 7: errors whose text looks like an internal sentinel are ordinary errors.",
+ "C10": "Round 7: empty maps converted to nil (aliases through a typed slot), lists passed to defer/go calls (reference values when passed).",
+ "C11": "Round 7: phase history (72 conversions per process over families of neighbouring types - named types of one kind with different method sets, twins that print alike, nine interface targets - refusals before valid conversions and the reverse, each step judged by the absolute oracle).",
+ "C12": "Round 7: phase long (histories of up to 2600 calls on one hot scope with segment sizes on and next to the powers of two).",
+ "C13": "Round 7: phase cells (race build: single-writer lanes over addressable struct, array, interface and number cells written through Set/SetValue/Define/DefineValue while readers Get, Copy, DeepCopy, String: a value read is one the writer wrote, lanes never go back, a copy keeps what it showed), scopes in unusual lifecycle states when copied, deadlocks that need operations on two related scopes under the controlled scheduler.",
+ "C14": "Round 7: cancellation from inside an operand of a ready channel operation repeated hundreds of times on one tree; stores through pointers taken from package members.",
+ "C15": "Round 7: phase blanks (44 characters some layer treats as blank, alone and as one side of the compositional law).",
+ "C16": "Round 7: go of a Go func value that wraps a script function, faults inside it judged in a child process; thousands of channels made, closed and dropped in one run.",
+ "C18": "Round 7: errors with an empty or blank text; fixed scripts over os.Pipe and friends with a dozen prints after them.",
+ "C19": "Round 7: phase swallowed (every builtin / package call with an argument spelled `failingInnerCall ?? arg` or through a catching script function must give what f(args) gives), phase sizes (len, keys, range, conversions exactly at and next to 255/256, 4095/4096/4097, 65535/65536).",
+}
+for _k, _v in ROUND7.items():
+    CLAIMED[_k]["text"] += " " + _v
+
+# what the eighth seeding round ("volume and history inside one process") added
+ROUND8 = {
+ "C04": "Round 8 (volume and history): phase rerun (a generated program is parsed once and its tree run 1100 times - thorough 4200 - in fresh environments; run 1 is judged by the model, every later run must equal it or be admitted by the model itself); phase volume: scopes holding 70-4200 names at three nesting levels with histories of var / plain assignment / delete of other names over three source texts executed in one environment, read back against a dictionary-chain model; 1100-4200 live closures of one factory; recursion 1100-9000 deep with locals checked after the inner calls return; one function invoked up to 9000 times (every invocation starts without the names earlier ones created); one read node and one assignment node whose nearest binding alternates between two scopes for thousands of rounds.",
+ "C07": "Round 8 (volume and history): phase rerun as for C04 over the operand-order generator; phase volume: 42 operand-evaluating forms (method calls on Go values with changing receiver types, calls through fields / map entries / module members, script calls direct / reflect path / variadic / spread / go / defer / anonymous and alternating callees, Go calls fixed / variadic / typed, literals, binary operators, index and slice, return lists, multi-assignment, && || ?: ?? with alternating deciding operands, in, switch subject) each written once and evaluated 1300 times (thorough up to 5000) in a loop or through a function called that often: every single evaluation must log its probe leaves exactly once in source order.",
+ "C08": "Round 8 (volume and history): phase rerun as for C04; phase volume: 6400 (thorough 16000) distinct condition values of every truthiness class streamed through if / else-if / loop / C-style-loop conditions of one process in 16 source texts, with a reference set of 24 values and values of earlier texts asked again every 40 values (strings spelling numbers or booleans are streamed unjudged); loops of 1023-65537 rounds (thorough 200000) in every loop form with break/continue/return at computed rounds, for-in over lists that long (rolling hash = index order) and maps of up to 20000 entries (every entry once); if/else-if chains and switch statements of 300-4200 branches asked thousands of times.",
+ "C09": "Round 8 (volume and history): phase rerun as for C04; phase volume: invocations nested 1100-12000 deep, each with a deferred Go call and a deferred script literal, ended by return / throw / runtime error / caught throw (every entered invocation runs its deferred calls exactly once, innermost first; a refusal of the interpreter to nest deeper is not judged, what happened before it is); 1025-65537 deferred calls registered by one invocation; a function with three defers invoked up to 9000 times; 12000 (thorough 60000) try statements in one run with thousands of distinct error texts.",
+}
+for _k, _v in ROUND8.items():
+    CLAIMED[_k]["text"] += " " + _v
+
 def main():
     checks = []
     for pid in ALL:
